@@ -36,11 +36,11 @@ ASSUMPTIONS = [
     "force_stop() called on the owner's own loop: a coroutine call whose awaited future had been resolved before that call must deliver the body's outcome (it only needs one more loop turn); "
     "futures resolved after the call may end either way; bodies still suspended end with a cancellation",
 ]
-PROBES = ["call.handover", "call.coro_value", "call.coro_slow", "call.coro_careful", "call.coro_raises", "call.plain_none", "call.plain_value", "call.attr", "call.direct", "call.after_close", "force_stop_mid_burst", "force_stop_from_task",
+PROBES = ["call.handover", "call.coro_value", "call.coro_slow", "call.coro_careful", "call.coro_raises", "call.coro_raises_now", "call.coro_value_now", "call.plain_none", "call.plain_value", "call.attr", "call.direct", "call.after_close", "force_stop_mid_burst", "force_stop_from_task",
           "preempted_in_proxy", "thread_switches", "typeerror_on_owner", "cancelled_by_stop", "owner_main_direction", "burst_ge_10", "ownerstop.direct", "ownerstop.done_callback",
           "ownerstop.call_value", "ownerstop.call_raise", "ownerstop.call_late", "ownerstop.call_never"]
 
-KINDS = ("coro_value", "coro_raises", "plain_none", "plain_value", "attr", "coro_slow", "coro_careful")
+KINDS = ("coro_value", "coro_raises", "plain_none", "plain_value", "attr", "coro_slow", "coro_careful", "coro_raises_now", "coro_value_now")
 
 
 class Boom(Exception):
@@ -88,6 +88,16 @@ class Obj:
         self._note("coro_raises", x)
         await asyncio.sleep(0)
         raise Boom(x)
+
+    async def coro_raises_now(self, x):
+        """Raises before its first suspension (like send_data on a link that has already failed)."""
+        self._note("coro_raises_now", x)
+        raise Boom(x)
+
+    async def coro_value_now(self, x):
+        """Finishes without ever suspending."""
+        self._note("coro_value_now", x)
+        return ("value", x)
 
     async def coro_gate(self, x):
         """A body suspended on a future that something on the owner's loop resolves later (like Gateway.reset() waiting for its RSTACK)."""
@@ -447,7 +457,7 @@ def run(scenario, params, tape, detail=False):
             st["closed"] = wl.is_closed()
             if direction == "worker" and wl.is_closed():
                 # C20.closed: calls after the owner loop finished closing execute nothing and do not block
-                for k in ("coro_value", "plain_none", "plain_value", "coro_raises"):
+                for k in ("coro_value", "plain_none", "plain_value", "coro_raises", "coro_raises_now", "coro_value_now"):
                     probe("call.after_close")
                     n0 = len(rec)
                     c = {"id": len(calls), "kind": k, "result": None, "after_close": True}
@@ -518,7 +528,7 @@ def run(scenario, params, tape, detail=False):
                 viol.append(("C20.plain", "return-value", f"plain call {c['id']} ({k}) from the other loop returned {res!r} to the caller"))
             if n_exec == 0 and not overl and outcome == "done":
                 viol.append(("C20.plain", "not-executed", f"plain call {c['id']} ({k}) was never executed on the owner's loop although the loop kept running"))
-        elif k in ("coro_value", "coro_slow", "coro_careful"):
+        elif k in ("coro_value", "coro_slow", "coro_careful", "coro_value_now"):
             if res[0] == "value" and res[1] != ("value", c["id"]):
                 viol.append(("C20.relay", "wrong-value", f"coroutine call {c['id']} returned {res[1]!r}"))
             elif res[0] == "raised" and not overl:
@@ -532,7 +542,7 @@ def run(scenario, params, tape, detail=False):
                     viol.append(("C20.relay", "cancelled", f"coroutine call {c['id']} was cancelled without force_stop"))
             if res[0] == "value" and n_exec != 1:
                 viol.append(("C20.relay", "value-without-execution", f"coroutine call {c['id']} returned a value but its body ran {n_exec} times"))
-        elif k == "coro_raises":
+        elif k in ("coro_raises", "coro_raises_now"):
             if res[0] == "raised" and not isinstance(res[1], Boom) and not overl:
                 viol.append(("C20.relay", "wrong-exception", f"coroutine call {c['id']} raised {res[1]!r} instead of the body's exception"))
             elif res[0] == "value":
@@ -566,7 +576,7 @@ def run(scenario, params, tape, detail=False):
     probe("thread_switches", sched.switches)
     kinds = tuple(c["kind"] for c in calls)
     sig = hashlib.blake2b(repr((sstr, kinds, direction, stop_ev is not None)).encode(), digest_size=8).digest()
-    nontrivial = bool(sched.preemptions) or stop_ev is not None or any(c["kind"] in ("coro_raises", "plain_value", "attr") for c in calls)
+    nontrivial = bool(sched.preemptions) or stop_ev is not None or any(c["kind"] in ("coro_raises", "coro_raises_now", "plain_value", "attr") for c in calls)
     res = {"viol": viol, "faults": {"force_stop": 1} if stop_ev is not None else {}, "probes": probes, "vt": sched.vt, "iters": sum(lp.iters for lp in sched.loops.values()),
            "sig": sig, "nontrivial": nontrivial,
            "digest": hashlib.sha256(repr((sstr, kinds, [(c["kind"], c["result"] and c["result"][0]) for c in calls], outcome)).encode()).hexdigest()[:16],
